@@ -19,6 +19,15 @@ def rels (eqv lt : Bool) : String :=
   let gt := !lt && !eqv
   String.join [fmtBool eqv, fmtBool lt, fmtBool (lt || eqv), fmtBool gt, fmtBool (gt || eqv)]
 
+
+/-- `char_traits<wchar_t>::lt` compares `wchar_t` values, and `wchar_t` is a signed 32-bit type on this target: a unit
+    given as its 32-bit pattern u orders as the integer u - 2^32 when u ≥ 2^31.  The model and the theorems order
+    code units as naturals (what `lt` does for char, char8_t, char16_t, char32_t); for `ct=wchar` the comparison lines
+    are therefore run on the images under the order isomorphism u ↦ (u + 2^31) mod 2^32, which preserves equality and
+    turns the signed order into the natural one.  Only `compare` / `rel` depend on the order of units. -/
+def ordKey (l : Line) (xs : List Nat) : List Nat :=
+  if (l.str? "ct").getD "char" == "wchar" then xs.map (fun u => (u + 2147483648) % 4294967296) else xs
+
 def step (_ : Unit) (l : Line) : Unit × String :=
   let bad := ((), "bad-op\tbad-op")
   let ov := (l.str? "ov").getD "sv"
@@ -53,7 +62,7 @@ def step (_ : Unit) (l : Line) : Unit × String :=
     | some h, some n, some p => out (fmtE fmtPos (findLastNotOf h n p)) (fmtPos (Spec.findLastNotOf h n p))
     | _, _, _ => bad
   | "compare" =>
-    match l.natList? "a", l.natList? "b" with
+    match (l.natList? "a").map (ordKey l), (l.natList? "b").map (ordKey l) with
     | some a, some b =>
       match posArg l "pos1", posArg l "count1", posArg l "pos2", posArg l "count2" with
       | some p1, some c1, some p2, some c2 =>
@@ -63,7 +72,7 @@ def step (_ : Unit) (l : Line) : Unit × String :=
       | _, _, _, _ => out (fmtE toString (compare a b)) (toString (Spec.cmp a b))
     | _, _ => bad
   | "rel" =>
-    match l.natList? "a", l.natList? "b" with
+    match (l.natList? "a").map (ordKey l), (l.natList? "b").map (ordKey l) with
     | some a, some b =>
       let m := do
         let e ← viewEq a b
